@@ -174,6 +174,18 @@ def build_items(shapes, tier, sd, A):
             items.append(item(toks, "imul", i, n=rnd.choice(mul_ns)))
         elif i % 17 == 6:
             items.append(item(toks, "addel", i, v=rnd.choice(VARS4[:2]), n=[rnd.randint(1, 5), 1]))
+        elif i % 17 == 12:
+            # one solver instance: a formula with a species that is not tabulated (unknown symbol / isotope), then this one
+            t2 = list(shapes[rnd.randrange(nshape)])
+            free = [x for x in VARS4 if x not in toks]
+            if not free:
+                items.append(item(toks, "none", i))
+                continue
+            vbad = rnd.choice([x for x in VARS4 if x in t2])
+            t2 = [(free[0] if t == vbad else t) for t in t2]          # that species of the first formula is not tabulated
+            it0 = item(toks, "reuse", i, toks2=t2)
+            it0["bind"][free[0]] = dict(rnd.choice(A.UNTABULATED), key="untabulated")
+            items.append(it0)
         elif i % 17 in (8, 10):
             # a sum, then an in-place add() on the sum / on the right operand of a species the right operand has
             t2 = shapes[rnd.randrange(nshape)]
@@ -197,7 +209,8 @@ def build_items(shapes, tier, sd, A):
     seen = {}
     for it in items:
         for sp in it["bind"].values():
-            seen.setdefault((sp["key"], it["natural"]), sp)
+            if sp["key"] != "untabulated":
+                seen.setdefault((sp["key"], it["natural"]), sp)
     # ... and the whole pool directly as Element(text), charged variants included
     for sp in binder.pool_main:
         for nat in (True, False):
@@ -271,6 +284,16 @@ def replay_formula(rec):
                 A.observe_substance(r, inv, "R.", obs)
                 A.observe_substance(s, inv, "A2.", obs)
                 A.observe_substance(b, inv, "B.", obs)
+            elif op == "reuse":
+                sub = A.Substance(natural=nat)
+                with A.SubstanceSolver(sub.atom) as ss:           # one solver instance for both formulas
+                    try:
+                        ss.solve(A.render(it["toks2"], bind))
+                        obs["first.raises"] = 0
+                    except Exception:
+                        obs["first.raises"] = 1
+                    r = ss.solve(text)
+                A.observe_substance(r, inv, "R.", obs)
             elif op == "iadd":
                 b = A.Substance(A.render(it["toks2"], bind), natural=nat)
                 r = operator.iadd(s, b)                           # s += b
